@@ -53,12 +53,28 @@ type C13Case struct {
 	CLI bool `json:",omitempty"`
 }
 
-func c13Inject(t *rapid.T, l string, docs []string, fatal bool) (files []C12File, broken, conv []string) {
+func c13Inject(t *rapid.T, l string, docs []string, fatal bool, wls []Workload) (files []C12File, broken, conv []string) {
 	docs = append([]string{}, docs...)
 	ndoc := rapid.IntRange(1, 4).Draw(t, l+"ninj")
 	for i := 0; i < ndoc; i++ {
 		var inj string
-		if rapid.Bool().Draw(t, fmt.Sprintf("%sconv%d", l, i)) {
+		var copyOf []Workload
+		for _, x := range wls {
+			if x.Kind == "Deployment" || x.Kind == "StatefulSet" || x.Kind == "Job" {
+				copyOf = append(copyOf, x)
+			}
+		}
+		if len(copyOf) > 0 && rapid.IntRange(0, 4).Draw(t, fmt.Sprintf("%scopy%d", l, i)) == 0 {
+			// a broken COPY of a resource that is really there: same kind, namespace and name, fails conversion. It must be
+			// reported like any other, and must not stand in for (or hide behind) the valid one
+			x := copyOf[rapid.IntRange(0, len(copyOf)-1).Draw(t, fmt.Sprintf("%scopyof%d", l, i))]
+			api, field := "apps/v1", "replicas: three"
+			if x.Kind == "Job" {
+				api, field = "batch/v1", "parallelism: many"
+			}
+			inj = fmt.Sprintf("apiVersion: %s\nkind: %s\nmetadata: {name: %s, namespace: %s}\nspec:\n  %s\n  selector: {matchLabels: {app: zz}}\n  template: {metadata: {labels: {app: zz}}, spec: {containers: [{name: c, image: x}]}}\n", api, x.Kind, x.Name, x.Ns, field)
+			conv = append(conv, fmt.Sprintf("kind: %s , name: %s , namespace: %s ,", x.Kind, x.Name, x.Ns))
+		} else if rapid.Bool().Draw(t, fmt.Sprintf("%sconv%d", l, i)) {
 			k := rapid.IntRange(0, len(convFailDocs)-1).Draw(t, fmt.Sprintf("%scf%d", l, i))
 			inj = convFailDocs[k].doc
 			conv = append(conv, convFailDocs[k].name)
@@ -116,9 +132,9 @@ func genC13(t *rapid.T) *C13Case {
 	c := &C13Case{Clean: w.YAML(), Fatal: rapid.IntRange(0, 5).Draw(t, "fatal") == 0, CLI: rapid.IntRange(0, 3).Draw(t, "cli") == 0}
 	wb := editWorld(t, w)
 	c.CleanB = wb.YAML()
-	c.Dirty, c.Broken, c.Conv = c13Inject(t, "a", worldDocStrings(w), c.Fatal)
+	c.Dirty, c.Broken, c.Conv = c13Inject(t, "a", worldDocStrings(w), c.Fatal, w.Workloads)
 	if rapid.Bool().Draw(t, "injectB") {
-		c.DirtyB, c.BrokenB, c.ConvB = c13Inject(t, "b", worldDocStrings(wb), false)
+		c.DirtyB, c.BrokenB, c.ConvB = c13Inject(t, "b", worldDocStrings(wb), false, wb.Workloads)
 	} else {
 		c.DirtyB = []C12File{{Path: "all.yaml", Content: c.CleanB}}
 	}
